@@ -32,6 +32,7 @@ from lark import (
     UnexpectedEOF,
     ParseTree,
 )
+from lark.exceptions import VisitError
 
 from .types import Nil
 
@@ -432,12 +433,18 @@ class FcpV2Transformer(Transformer):
                 Token(MetaData(line, line, column, column, 0, 0, str(filename))),
             )
 
-        fcp = FcpV2Transformer(
-            pathlib.Path(filename).resolve(),
-            self.parser_context,
-            self.filesystem_proxy,
-            self.error_logger,
-        ).transform(fcp_ast)
+        try:
+            fcp = FcpV2Transformer(
+                pathlib.Path(filename).resolve(),
+                self.parser_context,
+                self.filesystem_proxy,
+                self.error_logger,
+            ).transform(fcp_ast)
+        except VisitError as e:
+            return error(
+                f"Failed to import {filename}: {e.orig_exc}",
+                Token(_get_meta(tree, self)),
+            )
 
         self.fcp.merge(
             fcp.map_err(
@@ -580,9 +587,12 @@ def _get_fcp(
 
     parser_context = ParserContext()
 
-    fcp = FcpV2Transformer(
-        filename, parser_context, filesystem_proxy, logger
-    ).transform(fcp_ast)
+    try:
+        fcp = FcpV2Transformer(
+            filename, parser_context, filesystem_proxy, logger
+        ).transform(fcp_ast)
+    except VisitError as e:
+        return error(f"Invalid declaration in {filename.name}: {e.orig_exc}")
 
     return Ok(fcp.attempt())
 
